@@ -110,6 +110,9 @@ type payload struct {
 	API     [][]apiOp `json:"api,omitempty"`
 	// scheduling
 	Yield int `json:"yield,omitempty"` // VM probe yields when (ip+sp)%Yield==0 (0: no probe)
+	// MaxStrLen > 0: tengo.MaxStringLen for the whole case (set before any
+	// goroutine starts): some participants' format() calls exceed it and fail
+	MaxStrLen int `json:"max_str_len,omitempty"`
 }
 
 // ---------- module maps ----------
@@ -754,6 +757,11 @@ func guard(id string) bool { return openFindings[id] && !replaying }
 func runCase(p *payload, isReplay bool) (v verdict) {
 	replaying = isReplay
 	defer func() { replaying = false }()
+	if p.MaxStrLen > 0 {
+		old := tengo.MaxStringLen
+		tengo.MaxStringLen = p.MaxStrLen
+		defer func() { tengo.MaxStringLen = old }()
+	}
 	switch p.Kind {
 	case "clones":
 		return checkClones(p)
